@@ -178,6 +178,7 @@ def facts_at(node: ast.AST) -> set[tuple[str, str, str]]:
     ``if c: <leave>`` statements (so ¬c holds afterwards).  A fact is dropped when a name it mentions is re-assigned
     between the guard and the node (in the same block)."""
     facts: set[tuple[str, str, str]] = set()
+    pending: list[list[ast.expr]] = []  # tests known false that are conjunctions: not (a1 and ... and an)
     cur: ast.AST = node
     while True:
         par = getattr(cur, "_parent", None)
@@ -191,6 +192,8 @@ def facts_at(node: ast.AST) -> set[tuple[str, str, str]]:
                 facts |= atoms(par.test, True)
             elif isinstance(par, ast.If) and any(cur is s for s in par.orelse):
                 facts |= atoms(par.test, False)
+                if isinstance(par.test, ast.BoolOp) and isinstance(par.test.op, ast.And):
+                    pending.append(list(par.test.values))
         elif isinstance(par, ast.IfExp):
             if cur is par.body:
                 facts |= atoms(par.test, True)
@@ -230,6 +233,17 @@ def facts_at(node: ast.AST) -> set[tuple[str, str, str]]:
         if isinstance(par, (ast.FunctionDef, ast.AsyncFunctionDef, ast.Lambda)):
             break
         cur = par
+    # unit resolution: not (a1 and ... and an) together with all but one ai known true gives the negation of the remaining one
+    changed = True
+    while changed and pending:
+        changed = False
+        for conj in pending:
+            unknown = [v for v in conj if not (atoms(v, True) and atoms(v, True) <= facts)]
+            if len(unknown) == 1:
+                new = atoms(unknown[0], False)
+                if not new <= facts:
+                    facts |= new
+                    changed = True
     return facts
 
 
